@@ -338,3 +338,59 @@ def run_idfit(prog, ctx=None):
             res.ob("mpt_message_id2buf:width %d refuses wider ids" % w, ok, f, f.line,
                    "" if ok else "an id that needs more than %d bytes is not refused: reachable returns %s" % (w, [str(r) for r in rs]))
     return res
+
+
+def run_flexcopy(prog, ctx=None):
+    """FLEXCOPY: an object allocated with a variable tail (`malloc(sizeof(*p) + n)`, n not constant) whose last member ends in an
+    array is filled by a copy that includes the tail; a plain struct assignment into that member copies the declared array only"""
+    res = Result("FLEXCOPY")
+    files = set(ctx.get("files", [])) if ctx else None
+    for f in funcs_of(prog, files):
+        ext = {}      # local pointer id -> name, allocated with variable tail
+        for b, i, n in f.walk_all():
+            if n.get("k") == "bin" and n.get("op") == "=":
+                l = strip(n["a"], lvalue_to_rvalue=False)
+                r = strip(n["b"], all_casts=True)
+                if l.get("k") == "ref" and "id" in l["d"] and r.get("k") == "call" and callee_name(r) in ("malloc", "realloc") and r.get("args"):
+                    sz = strip(r["args"][-1], all_casts=True)
+                    if sz.get("k") == "bin" and sz.get("op") == "+" and cval(sz) is None and any(m.get("k") == "sizeof" for m in walk(sz)):
+                        ext[l["d"]["id"]] = l["d"]["n"]
+        if not ext:
+            continue
+        for b, i, e in f.elements():
+            for n in walk_own(e):
+                tgt = None
+                if n.get("k") == "bin" and n.get("op") == "=":
+                    tgt = strip(n["a"], lvalue_to_rvalue=False)
+                    how = "struct assignment"
+                elif n.get("k") == "call" and callee_name(n) == "memcpy" and n.get("args"):
+                    a0 = strip(n["args"][0], all_casts=True)
+                    if a0.get("k") == "un" and a0.get("op") == "&":
+                        tgt = strip(a0["e"], lvalue_to_rvalue=False)
+                        how = "memcpy"
+                if tgt is None or tgt.get("k") != "mem" or not tgt.get("arrow"):
+                    continue
+                bs = strip(tgt["b"], all_casts=True)
+                if bs.get("k") != "ref" or bs["d"].get("id") not in ext:
+                    continue
+                T = f.T(tgt.get("t"))
+                if T.get("k") != "record":
+                    continue
+                # last member of the allocated object, ending in an array?
+                prec = prog.records.get(tgt.get("rec"))
+                r2 = prog.records.get(T.get("name"))
+                if not prec or not r2 or not prec["fields"] or prec["fields"][-1]["n"] != tgt["f"] or not r2["fields"]:
+                    continue
+                LT = r2["unit"].types[r2["fields"][-1]["t"]]
+                if LT.get("k") != "array":
+                    continue
+                key = "%s:%s" % (f.qn, norm(show(n, f))[:70])
+                if how == "memcpy":
+                    ln = strip(n["args"][2], all_casts=True)
+                    ok = cval(ln) is None      # length includes the variable tail
+                    res.ob(key, ok, f, n.get("l", 0), "" if ok else "copy of the tail-extended member %s uses a constant size" % tgt["f"])
+                else:
+                    res.ob(key, False, f, n.get("l", 0),
+                           "%s->%s lies at the end of an object allocated with a variable tail; assigning the struct copies only %s[%s], the bytes beyond it are lost" % (
+                               ext[bs["d"]["id"]], tgt["f"], r2["fields"][-1]["n"], LT.get("n")))
+    return res
